@@ -16,7 +16,7 @@ Proof. exact handle_all_terminates. Qed.
 
 (* exactly_once: after any event list, pending (+) consumed = arrived *)
 Theorem C12_exactly_once :
-  forall nd n es s, run (init_state nd n) es = Some s ->
+  forall nd es s, run (init_state nd) es = Some s ->
   Permutation (map r_id (pend s) ++ map rid (log s)) (seq 0 (next_resp s)).
 Proof. exact exactly_once_run. Qed.
 
@@ -25,7 +25,7 @@ Proof. exact exactly_once_run. Qed.
    (pairs consumed so far) + left = tot; pair indices of consumed responses count 0,1,2,...
    per request *)
 Theorem C12_counts :
-  forall nd n es s, run (init_state nd n) es = Some s -> counts_ok s.
+  forall nd es s, run (init_state nd) es = Some s -> counts_ok s.
 Proof. exact counts_ok_run. Qed.
 
 (* first handleable response wins: what one iteration of the handler picks *)
@@ -53,40 +53,45 @@ Proof. exact hit_charges_head. Qed.
    outstanding has consumed exactly its number of pairs (and this persists); an outstanding
    one has consumed tot - left < tot *)
 Theorem C12_retire_exact :
-  forall nd n es s id tot, run (init_state nd n) es = Some s -> In (id, tot) (issued s) ->
+  forall nd es s id tot, run (init_state nd) es = Some s -> In (id, tot) (issued s) ->
   (forall q, In q (reqs s) -> q_id q <> id) -> count id (log s) = tot.
 Proof. exact retire_exact. Qed.
 
 Theorem C12_outstanding_not_complete :
-  forall nd n es s, run (init_state nd n) es = Some s ->
+  forall nd es s, run (init_state nd) es = Some s ->
   Forall (fun q => (1 <= q_left q <= q_tot q)%nat /\ (count (q_id q) (log s) + q_left q = q_tot q)%nat) (reqs s).
-Proof. intros nd n es s H. exact (proj1 (proj2 (proj2 (counts_ok_run nd n es s H)))). Qed.
+Proof. intros nd es s H. exact (proj1 (proj2 (proj2 (counts_ok_run nd es s H)))). Qed.
 
 (* slice_k, qubit_k, no_overwrite *)
 Theorem C12_slice_qubit_no_overwrite :
   forall s s2, hit s s2 ->
   exists r q,
     let k := (q_tot q - q_left q)%nat in
+    let app := q_app q in
     find (matches (node s) r) (reqs s) = Some q /\
     log s2 = (r_id r, q_id q, k) :: log s /\
-    (exists l2, aget Z.eqb (q_res q) (arrs s2) = Some l2 /\
+    (exists l2, aget pair_eqb (app, q_res q) (arrs s2) = Some l2 /\
                 forall j, (j < OK_FIELDS)%nat ->
                           nth_error l2 (k * OK_FIELDS + j) = nth_error (map Some (info_of r)) j) /\
+    (forall key, key <> (app, q_res q) -> aget pair_eqb key (arrs s2) = aget pair_eqb key (arrs s)) /\
     (r_k r = true ->
-     exists qa lq v i,
-       q_qarr q = Some qa /\ aget Z.eqb qa (arrs s) = Some lq /\ nth_error lq k = Some (Some v) /\
-       slot (List.length (um s)) v = Slot i /\ nth_error (um s) i = Some None /\
-       nth_error (um s2) i = Some (Some (r_q r)) /\
-       forall j, j <> i -> nth_error (um s2) j = nth_error (um s) j) /\
-    (r_k r = false -> um s2 = um s).
+     exists qa lq v um um2 i,
+       q_qarr q = Some qa /\ aget pair_eqb (app, qa) (arrs s) = Some lq /\ nth_error lq k = Some (Some v) /\
+       aget Z.eqb app (ums s) = Some um /\ aget Z.eqb app (ums s2) = Some um2 /\
+       slot (List.length um) v = Slot i /\ nth_error um i = Some None /\
+       nth_error um2 i = Some (Some (r_q r)) /\
+       (forall j, j <> i -> nth_error um2 j = nth_error um j) /\
+       (forall app', app' <> app -> aget Z.eqb app' (ums s2) = aget Z.eqb app' (ums s))) /\
+    (r_k r = false -> ums s2 = ums s).
 Proof. exact hit_effect. Qed.
 
 (* defer: a response whose request is there is left pending only if it is a keep response
    whose virtual qubit is still allocated *)
 Theorem C12_deferred_only_when_busy :
   forall s r q, try_handle s r = NotNow -> find (matches (node s) r) (reqs s) = Some q ->
-  r_k r = true /\ exists qa lq v, q_qarr q = Some qa /\ aget Z.eqb qa (arrs s) = Some lq /\
-                                  nth_error lq (q_tot q - q_left q) = Some (Some v) /\ has_virtual (um s) v = true.
+  r_k r = true /\ exists qa lq v um, q_qarr q = Some qa /\ aget pair_eqb (q_app q, qa) (arrs s) = Some lq /\
+                                     nth_error lq (q_tot q - q_left q) = Some (Some v) /\
+                                     aget Z.eqb (q_app q) (ums s) = Some um /\ has_virtual um v = true.
 Proof. exact deferred_only_when_busy. Qed.
 
 Theorem C12_drain_quiescent :
@@ -103,9 +108,9 @@ Proof. exact wait_sound. Qed.
 (* a request the network stack refuses (put raises inside create_epr) leaves the queues,
    the pending list, the log, the waiting subroutines and the unit module as they were ... *)
 Theorem C12_put_fault_leaves_queues_unchanged :
-  forall s k tpk vs n qarr args res s',
-  step s (CreateRefused k tpk vs n qarr args res) = (s', None) ->
-  reqs s' = reqs s /\ pend s' = pend s /\ log s' = log s /\ subs s' = subs s /\ um s' = um s /\
+  forall s app k tpk vs n qarr args res s',
+  step s (CreateRefused app k tpk vs n qarr args res) = (s', None) ->
+  reqs s' = reqs s /\ pend s' = pend s /\ log s' = log s /\ subs s' = subs s /\ ums s' = ums s /\
   issued s' = issued s /\ next_req s' = next_req s /\
   forall k' c, queue s' k' c = queue s k' c.
 Proof. exact put_fault_leaves_queues_unchanged. Qed.
@@ -113,31 +118,59 @@ Proof. exact put_fault_leaves_queues_unchanged. Qed.
 (* ... so when the application re-issues the create on a socket with nothing else outstanding,
    the responses are charged to the retry (its result array), not to the refused request *)
 Theorem C12_retry_after_refusal_is_head :
-  forall nd k tpk vs n qarr args res vs2 n2 qarr2 args2 res2 ws s1 s2 s3 r,
-  step s1 (CreateRefused k tpk vs n qarr args res) = (s2, None) ->
-  step s2 (Create k tpk vs2 n2 qarr2 args2 res2 ws) = (s3, None) ->
+  forall nd app k tpk vs n qarr args res vs2 n2 qarr2 args2 res2 ws s1 s2 s3 r,
+  step s1 (CreateRefused app k tpk vs n qarr args res) = (s2, None) ->
+  step s2 (Create app k tpk vs2 n2 qarr2 args2 res2 ws) = (s3, None) ->
   node s1 = nd -> find (matches nd r) (reqs s1) = None ->
-  matches nd r (mkReq (next_req s1) k true (next_sid s2) res2 (if tpk then Some qarr2 else None) n2 n2) = true ->
-  exists q, find (matches nd r) (reqs s3) = Some q /\ q_res q = res2 /\ q_id q = next_req s1.
+  matches nd r (mkReq (next_req s1) k true (next_sid s2) app res2 (if tpk then Some qarr2 else None) n2 n2) = true ->
+  exists q, find (matches nd r) (reqs s3) = Some q /\ q_res q = res2 /\ q_app q = app /\ q_id q = next_req s1.
 Proof. exact retry_after_refusal_is_head. Qed.
 
+(* several applications: registering or stopping one does not touch the matching bookkeeping
+   (outstanding requests of every application, pending responses -- also those that arrived
+   early for a request another application has not issued yet --, log, waiting subroutines),
+   nor the other applications' arrays and unit modules *)
+Theorem C12_lifecycle_leaves_bookkeeping_unchanged :
+  forall s e s',
+  (exists app n, e = Init app n) \/ (exists app, e = Stop app) ->
+  step s e = (s', None) ->
+  reqs s' = reqs s /\ pend s' = pend s /\ log s' = log s /\ subs s' = subs s /\
+  next_req s' = next_req s /\ next_resp s' = next_resp s /\ issued s' = issued s.
+Proof. exact lifecycle_leaves_bookkeeping_unchanged. Qed.
+
+Theorem C12_stop_leaves_other_apps :
+  forall s app s' app', step s (Stop app) = (s', None) -> app' <> app ->
+  aget Z.eqb app' (ums s') = aget Z.eqb app' (ums s) /\
+  forall addr, aget pair_eqb (app', addr) (arrs s') = aget pair_eqb (app', addr) (arrs s).
+Proof. exact stop_leaves_other_apps. Qed.
+
+(* an early response for application 1 survives the stop of application 0 and becomes pair 0
+   of application 1's request *)
+Example C12_two_apps_nonvacuous :
+  match run (init_state 2) [Init 0 1; Init 1 2; Resp (mkResp 0 true 0 1 1 101 1 1 50 7 1);
+                            Alloc 0 0; Stop 0; Recv 1 (0, 1) (Some [1]) 1 0 1 [WAll 1 0 10]; Retry; Poll 1] with
+  | Some s => log s = [(0, 0, 0)]%nat /\ pend s = [] /\ ums s = [(1, [None; Some 101])] /\ subs s = [] /\ used s = [(0, 101)]
+  | None => False
+  end.
+Proof. vm_compute. repeat split; reflexivity. Qed.
+
 Example C12_refusal_nonvacuous :
-  match run (init_state 0 2) [CreateRefused (1, 0) true [0; 1] 2 0 1 2;
-                              Create (1, 0) true [0; 1] 2 3 4 5 [WAll 5 0 20];
-                              Resp (demo_resp true 0 1 101); Resp (demo_resp true 0 2 102); Poll 1] with
-  | Some s => log s = [(1, 0, 1); (0, 0, 0)]%nat /\ reqs s = [] /\ um s = [Some 101; Some 102] /\ subs s = [] /\
-              option_map (fun l => nth_error l 12) (aget Z.eqb 5 (arrs s)) = Some (Some (Some 102)) /\
-              option_map (fun l => nth_error l 2) (aget Z.eqb 2 (arrs s)) = Some (Some None)
+  match run (init_state 0) [Init 0 2; CreateRefused 0 (1, 0) true [0; 1] 2 0 1 2;
+                            Create 0 (1, 0) true [0; 1] 2 3 4 5 [WAll 5 0 20];
+                            Resp (demo_resp true 0 1 101); Resp (demo_resp true 0 2 102); Poll 1] with
+  | Some s => log s = [(1, 0, 1); (0, 0, 0)]%nat /\ reqs s = [] /\ ums s = [(0, [Some 101; Some 102])] /\ subs s = [] /\
+              option_map (fun l => nth_error l 12) (aget pair_eqb (0, 5) (arrs s)) = Some (Some (Some 102)) /\
+              option_map (fun l => nth_error l 2) (aget pair_eqb (0, 2) (arrs s)) = Some (Some None)
   | None => False
   end.
 Proof. vm_compute. repeat split; reflexivity. Qed.
 
 (* the contract is needed (witnesses replayed on the implementation by the check) *)
 Definition C12_no_fault_unrestricted : Prop :=
-  forall nd n es s r, run (init_state nd n) es = Some s -> snd (step s (Resp r)) <> Some EUnknownSub.
+  forall nd es s r, run (init_state nd) es = Some s -> snd (step s (Resp r)) <> Some EUnknownSub.
 
 Theorem C12_issuer_dead_refuted :
-  exists s r, run (init_state 0 2) [Create (1, 0) true [0] 1 0 1 2 []] = Some s /\
+  exists s r, run (init_state 0) [Init 0 2; Create 0 (1, 0) true [0] 1 0 1 2 []] = Some s /\
               List.length (reqs s) = 1%nat /\ subs s = [] /\
               step s (Resp r) = (arrive s r, Some EUnknownSub).
 Proof. exact issuer_dead_refuted. Qed.
@@ -145,31 +178,31 @@ Proof. exact issuer_dead_refuted. Qed.
 Theorem C12_unrestricted_refuted : ~ C12_no_fault_unrestricted.
 Proof.
   intros H. destruct issuer_dead_refuted as (s & r & R & _ & _ & E).
-  apply (H 0 2%nat _ s r R). rewrite E. reflexivity.
+  apply (H 0 _ s r R). rewrite E. reflexivity.
 Qed.
 
 Theorem C12_type_mismatch_refuted :
-  exists s, run (init_state 0 2) [Create (1, 0) true [0] 1 0 1 2 [WAll 2 0 10]; Resp (demo_resp false 0 1 1)] = Some s /\
-            log s = [(0, 0, 0)%nat] /\ reqs s = [] /\ um s = [None; None].
+  exists s, run (init_state 0) [Init 0 2; Create 0 (1, 0) true [0] 1 0 1 2 [WAll 2 0 10]; Resp (demo_resp false 0 1 1)] = Some s /\
+            log s = [(0, 0, 0)%nat] /\ reqs s = [] /\ ums s = [(0, [None; None])].
 Proof. exact type_mismatch_refuted. Qed.
 
 (* non-vacuity: responses before the matching instruction, two requests on one socket, mixed
    roles, a deferred keep response released by a free: the run is fault-free, five responses
    are consumed, the first create request gets pairs 0 and 1 and the second pair 0 (FIFO) *)
 Definition demo : list event :=
-  [Resp (demo_resp true 0 1 101);
-   Create (1, 0) true [0; 1] 2 0 1 2 [WAny 2 0 20; WAll 2 0 20];
-   Create (1, 0) true [0] 1 3 4 5 [WAll 5 0 10];
-   Recv (1, 0) (Some [1]) 1 6 7 [WAll 7 0 10];
+  [Init 0 2; Resp (demo_resp true 0 1 101);
+   Create 0 (1, 0) true [0; 1] 2 0 1 2 [WAny 2 0 20; WAll 2 0 20];
+   Create 0 (1, 0) true [0] 1 3 4 5 [WAll 5 0 10];
+   Recv 0 (1, 0) (Some [1]) 1 6 7 [WAll 7 0 10];
    Resp (demo_resp true 0 2 102);
    Resp (demo_resp true 0 3 103);
    Resp (demo_resp true 1 4 104);
-   Free 0; Free 1; Retry; Poll 0; Poll 1; Poll 2].
+   Free 0 0; Free 0 1; Retry; Poll 0; Poll 1; Poll 2].
 
 Example C12_nonvacuous :
-  match run (init_state 0 2) demo with
+  match run (init_state 0) demo with
   | Some s => log s = [(3, 2, 0); (2, 1, 0); (1, 0, 1); (0, 0, 0)]%nat /\ reqs s = [] /\ pend s = [] /\
-              um s = [Some 103; Some 104] /\ subs s = []
+              ums s = [(0, [Some 103; Some 104])] /\ subs s = []
   | None => False
   end.
 Proof. vm_compute. repeat split; reflexivity. Qed.
@@ -187,6 +220,8 @@ Print Assumptions C12_drain_quiescent.
 Print Assumptions C12_wait_sound.
 Print Assumptions C12_put_fault_leaves_queues_unchanged.
 Print Assumptions C12_retry_after_refusal_is_head.
+Print Assumptions C12_lifecycle_leaves_bookkeeping_unchanged.
+Print Assumptions C12_stop_leaves_other_apps.
 Print Assumptions C12_issuer_dead_refuted.
 Print Assumptions C12_unrestricted_refuted.
 Print Assumptions C12_type_mismatch_refuted.
